@@ -69,6 +69,7 @@ pub fn guard<F: FnOnce() -> String>(f: F) -> String {
 /// main loop: one request per line on stdin, `request => answer` on stdout
 pub fn serve<F: Fn(&str, bool, u32, u32, &[&str]) -> String>(run: F) {
     if std::env::var_os("SFX_SHOW_PANICS").is_none() { std::panic::set_hook(Box::new(|_| {})); }
+    let flush_each = std::env::var_os("SFX_FLUSH").is_some();
     let stdin = io::stdin();
     let stdout = io::stdout();
     let mut out = io::BufWriter::with_capacity(1 << 20, stdout.lock());
@@ -83,6 +84,7 @@ pub fn serve<F: Fn(&str, bool, u32, u32, &[&str]) -> String>(run: F) {
         let f: u32 = parts[3].parse().expect("f");
         let a = guard(|| run(parts[0], s, n, f, &parts[4..]));
         writeln!(out, "{} => {}", t, a).unwrap();
+        if flush_each { out.flush().unwrap(); }
     }
     out.flush().unwrap();
 }
